@@ -220,14 +220,18 @@ def main(argv):
             lines.append(f'UNDECIDED property={prop} unit={u["unit"]} {u["reason"]}')
         exit_code = 2
     wall = time.time() - t0
-    obligations = total_fn_ok + len(violations) + len([1 for _ in known_hits])
+    # obligations the claim of this run rests on: everything generated, EXCEPT the functions whose failing obligation is a
+    # recorded known finding: those are not claimed at all (they are reported by name in known_findings_reported and by a
+    # KNOWN-FINDING line) and so are counted separately, not as undischarged parts of the proof-level claim
+    obligations = total_fn_ok + len(violations)
+    known_finding_fns = len(set(ob.get('fn') for _, ob in known_hits))
     ev = {
         'property_id': prop, 'tier': tier, 'seed': seed, 'level': cfg.get('level', 'proof'),
         'coverage': {
             'obligations': obligations,
             'discharged': total_fn_ok,
             'obligations_fine_grained': total_fine,
-            'counting_rule': 'obligations = functions (exec bodies, lemmas, spec termination) for which Verus generated and discharged a verification condition, plus Kani harnesses that ended SUCCESSFUL; obligations_fine_grained = number of individually reported proof obligations (AIR `location` nodes: call preconditions, overflow, index, postcondition clauses, invariants, termination) + CBMC property checks',
+            'counting_rule': 'obligations = functions (exec bodies, lemmas, spec termination) for which Verus generated a verification condition, plus Kani harnesses, MINUS functions whose failing obligation is a recorded known finding (counted in functions_excluded_because_of_a_known_finding and named in known_findings_reported: they are not part of the claim); discharged = those that verified / ended SUCCESSFUL; obligations_fine_grained = number of individually reported proof obligations (AIR `location` nodes: call preconditions, overflow, index, postcondition clauses, invariants, termination) + CBMC property checks',
             'checker_cmd': f'./check {prop} --tier {tier}   (runs: verus <unit>.rs --rlimit .. --multiple-errors .. ; cargo kani --harness ..)',
             'trusted_base': sorted(assumptions),
             'functions_under_contract': sorted(set(fn_under_contract)),
@@ -239,6 +243,7 @@ def main(argv):
             'repo_tree': tree_id(),
             'undecided': undecided,
             'known_findings_reported': [k.get('what') for k, _ in known_hits],
+            'functions_excluded_because_of_a_known_finding': known_finding_fns,
             'bounded_stand_ins': cfg.get('bounded', []),
             'not_covered': cfg.get('not_covered', []),
         },
